@@ -131,7 +131,7 @@ func writeEvidence(f *commonFlags, tot *Stats, wall float64, reported, known []s
 			"package-level state is restored to its start-of-process value before every case, so that first-use (lazy initialisation) windows are re-opened in every case",
 			"lane A: a change of package state is a violation only if the writing task performed no synchronisation operation since its call began; whether synchronised accesses are ordered is the race detector's judgement (lanes R and B)",
 			"set-valued results are compared as sets when they differ in order only; in lane A a returned slice is overwritten by the harness after copying (a caller owns its result), in lane R it is not",
-			"channels, select, sync.Cond, timers and calls into dependencies that can start goroutines or block are not simulated: for a tree that uses them lanes A and R are skipped and the verdict is lane B's; the same if goroutines appear that the simulator did not start; a run that stalls anyway ends with exit 2, not with a verdict"},
+			"channels the library makes and uses itself are simulated (simulated blocking, then the real operation; rendezvous by out-of-band wake-up); select, sync.Cond, timers, channels that cross the library boundary and calls into dependencies that can start goroutines or block are not simulated: for a tree that uses them lanes A and R are skipped and the verdict is lane B's; the same if goroutines appear that the simulator did not start; a run that stalls anyway ends with exit 2, not with a verdict"},
 	}
 	ev := map[string]any{
 		"property_id": f.prop,
